@@ -200,6 +200,9 @@ class Exec:
 
     def ev_Subscript(self, e, st, k):
         def got(o, st2):
+            if isinstance(o, SOpaqueObj):
+                key = ast.unparse(e.slice) if isinstance(e.slice, ast.Constant) else "?"
+                return k(SOpaqueObj(f"{o.name}[{key}]"), st2)
             if isinstance(e.slice, ast.Slice):
                 return self.slice(o, e.slice, st2, k)
             return self.ev(e.slice, st2, lambda i, st3: self.index(o, i, st3, k))
@@ -370,6 +373,8 @@ class Exec:
         g = e.generators[0]
         if not isinstance(g.target, ast.Name): raise Unsupported("comprehension target")
         def got(it, st2):
+            if isinstance(it, SOpaqueObj):
+                return k(SOpaqueObj("comprehension"), st2)
             st3, src = self.iter_seq(it, st2)
             i = S.fresh("i!c", z3.IntSort())
             x = S.wrap(src.elem, src.arr[i])
